@@ -672,8 +672,8 @@ def all_sets(tier, r):
     if tier == "quick":
         td = r.sample(td, min(len(td), 14))      # the whole directory in the thorough tier
     # large-collection sets, every feature of harness/corr/c17_gen.py
-    gen += c17_gen.rich_sets(r, None, rounds=1 if tier == "quick" else 5,
-                             size=(6, 16) if tier == "quick" else (8, 30))
+    gen += c17_gen.rich_sets(r, None, rounds=1 if tier == "quick" else 3,
+                             size=(6, 16) if tier == "quick" else (8, 24))
     return corpus, td, gen
 
 
@@ -884,8 +884,10 @@ def run(tier):
     lap("sweep")
     cli_sets = [s for s in corpus if s["name"] in (
         "F6-expected-token-order", "F7-cycle-group-order", "anon-imports", "import-missing", "cpp-enum-case-bad")]
+    # one large generated set per accepted-feature through the real CLI as well
+    cli_sets += [s for s in gen if s["name"] in ("rich:imports:0.0",)]
     if tier == "thorough":
-        cli_sets = corpus + td[:6]
+        cli_sets = corpus + td[:6] + [s for s in gen if s["name"].startswith("rich:") and s["name"].endswith(":0.0")]
     cli_seeds = [0, 1, 2] if tier == "quick" else list(range(6))
     cli_res = cli_sweep(chk, cli_sets, cli_seeds)
     lap("cli_sweep")
